@@ -374,7 +374,7 @@ def unit_struct():
 
 
 REPRS = {"u8": ("y", "Y"), "i8": ("n", "N"), "i16": ("n", "N"), "u16": ("q", "Q"), "i32": ("i", "I"),
-         "u32": ("u", "U"), "i64": ("x", "X"), "u64": ("t", "T")}
+         "u32": ("u", "U"), "i64": ("x", "X"), "u64": ("t", "T"), "usize": ("t", "T"), "isize": ("x", "X")}
 
 
 def repr_enum(repr_, discs):
@@ -605,7 +605,8 @@ def build_bank():
         add(newtype(t))
     unit = add(unit_struct())
     for r, discs in [("u8", [0, 1, 255]), ("u32", [0, 7, 4294967295]), ("i16", [-32768, 0, 5]), ("i64", [-1, 0, 9223372036854775807]),
-                     ("i8", [-128, 127])]:
+                     ("i8", [-128, 127]), ("u16", [0, 65535]), ("i32", [-2147483648, 3]), ("u64", [0, 18446744073709551615]),
+                     ("usize", [0, 18446744073709551615]), ("isize", [-9223372036854775808, 2])]:
         add(repr_enum(r, discs))
     add(index_enum(3))
     add(index_enum(2, repr_u32=True))
